@@ -70,7 +70,8 @@ openf('C03', 'kf_replay_exceeds_smaller_recvmax', "after a reconnect with a smal
 openf('C04', 'kf_recvmax_dup_qos2', 'a retransmitted (DUP) QoS 2 PUBLISH arriving while the Receive Maximum quota is used up is answered by DISCONNECT 0x93 although it is no new message (readLoop counts packets, not identifiers)', 'corpus/C04/kf.sx (kf_dup_at_full_quota)')
 openf('C12', 'kf_redelivery_after_expiry', 'an in-flight QoS>0 message is retransmitted after a reconnect although its Message Expiry Interval has passed (ReadInflight does not check expiry)', 'corpus/C12/hand.sx (h_redeliv_expired)')
 openf('C12', 'kf_expiry_zero_treated_as_absent', 'a PUBLISH with Message Expiry Interval 0 is kept and delivered like one without the property (0 is the internal "no expiry" value)', 'corpus/C12/hand.sx (h_zero)')
-openf('C10', 'kf_redis_queue_lrange_minus1', 'redis queue: Read with no packet ids / ReadInflight(0) at cursor 0 issues LRANGE 0 -1 and returns the whole list', 'corpus/C10/redis_open.sx')
+openf('C10', 'kf_redis_queue_lrange_minus1', 'redis queue: Read with no packet ids at cursor 0 issues LRANGE 0 -1 and walks the whole list (QoS 0 messages handed out and removed, index-out-of-range panic on the first QoS>0 message); the ReadInflight(0) half of this finding was repaired in 309d247', 'corpus/C10/redis_open.sx')
+fixed('C10', '309d247', 'redis queue ReadInflight(0): at cursor 0 it issued LRANGE 0 -1 and returned the whole list; at any other cursor the (necessarily empty) reply was taken for "no in-flight entries left", so the next Read handed out an in-flight entry still awaiting redelivery as a new message under a new packet id (found by the thorough tier: 8 unclassified deviations in 40 000 cases)', 'corpus/C10/redis_fixed.sx (fx_readinflight0, fx_readinflight0_cur0)')
 openf('C10', 'kf_redis_queue_stale_cache', 'redis queue: Remove of an id whose entry Add already sacrificed moves counters and cursor although nothing is removed', 'corpus/C10/redis_open.sx')
 openf('C10', 'kf_redis_queue_replace_cursor0', 'redis queue: Replace while the read cursor is 0 inspects element 0 instead of the in-flight entry', 'corpus/C10/redis_open.sx')
 openf('C16', 'kf_hello_reply_lost', 'federation: a Hello whose reply is lost while the peer created a fresh session leaves the sender with its old queue and the peer with an empty view (no full resynchronisation); a repair was tried and reverted because the pinned TestFederation_Hello asserts the current reply', 'corpus/C16/kf.sx')
@@ -93,22 +94,23 @@ fixed('C13', 'ef0c317', 'the Topic Alias property added by writeLoop after the s
 openf('C14', 'kf_connack3_carries_v5_code', 'a 3.1/3.1.1 CONNECT refused by an auth hook with an MQTT 5 reason code (>= 0x80) is answered with return code 0x87, which is no 3.x return code (sendErrConnack assigns codes.NotAuthorized instead of codes.V3NotAuthorized); still a failing CONNACK; the pinned TestClient_connectWithTimeOut_BasicAuth asserts 0x87, so it cannot be repaired without editing it', 'corpus/C14/kf.sx')
 fixed('C11', '8c233d3', 'shared subscriptions with a leading wildcard ($share/g/#, $share/g/+/..) matched topic names beginning with $: MQTT-4.7.2-1 was applied to the non-shared tries only (was kf_shared_filter_matches_dollar_topic under C07, C08, C11)', 'corpus/C11/fixed_dollar.sx, corpus/C07/fixed.sx, corpus/C08/fixed.sx')
 openf('C13', 'kf_unknown_pubrel_refunds_quota', 'the PUBCOMP answering a PUBREL gives a unit of the Receive Maximum quota back even when that packet id was not open (writeLoop calls addServerQuota for every PUBCOMP; the unack store cannot tell whether Remove removed anything), so a client that sends PUBREL for unknown ids can hold more than Receive Maximum QoS 2 publishes without being disconnected with 0x93 (Coq: C13_quota_exact_refuted_by_unknown_pubrel)', 'corpus/C13/kf.sx (kf_unknown_pubrel)')
+fixed('C06', '23f87b1', 'codec: the reserved fixed-header flags of PUBACK, PUBREC, PUBREL and PUBCOMP were not checked (was kf_ack_flags)', 'corpus/C06/fixed.sx (fx_ack_flags, fx_pubrel_flags0)')
+fixed('C06', '3fb8d07', 'codec: a SUBSCRIBE with Retain Handling 3 was accepted (was kf_retain_handling_3)', 'corpus/C06/fixed.sx (fx_retain_handling_3)')
+fixed('C06', '63ec0e9', 'codec: a shared subscription with the No Local option was accepted (was kf_nolocal_shared)', 'corpus/C06/fixed.sx (fx_nolocal_shared)')
+fixed('C06', 'fb98e62', 'codec: PUBLISH (QoS 1 and 2), SUBSCRIBE and UNSUBSCRIBE packets with packet identifier 0 were accepted (was kf_pid_zero)', 'corpus/C06/fixed.sx (fx_pid_zero_*)')
+fixed('C06', 'a393441', 'codec: an MQTT 3.1.1 CONNECT with the Password Flag set and the User Name Flag clear was accepted (was kf_v3_password_without_username)', 'corpus/C06/fixed.sx (fx_v3_password_without_username)')
+fixed('C06', 'aeb6787', 'codec: an MQTT 5 UNSUBSCRIBE did not check the shared subscription syntax of its topic filters (was kf_unsub_share_syntax)', 'corpus/C06/fixed.sx (fx_unsub_share_syntax)')
+fixed('C06', '7609f60', 'codec: the properties of a CONNECT packet could contain will and publish properties (was kf_connect_props_will)', 'corpus/C06/fixed.sx (fx_connect_props_will)')
+fixed('C06', 'e37205a', 'codec: a Property Length larger than the rest of the packet was accepted (was kf_prop_len_overrun)', 'corpus/C06/fixed.sx (fx_prop_len_overrun)')
+fixed('C06', '89fd555', 'codec: an MQTT 5 packet that ends before its mandatory Property Length was accepted (was kf_proplen_omitted)', 'corpus/C06/fixed.sx (fx_proplen_omitted)')
+fixed('C06', '6dc1dd4', 'codec: bytes left over inside the Remaining Length of a packet were ignored (was kf_trailing)', 'corpus/C06/fixed.sx (fx_trailing_*)')
+fixed('C06', '0ca990c', 'codec: variable byte integers that are longer than necessary were accepted (was kf_varint_noncanonical)', 'corpus/C06/fixed.sx (fx_varint_noncanonical)')
+fixed('C06', '5f20c9d', 'codec: ValidTopicName accepted the empty string (was kf_name_empty)', 'corpus/C06/fixed.sx (fx_name_empty, fx_name_empty_s)')
+fixed('C06', '264c0c1', 'codec: ValidTopicName, ValidTopicFilter and ValidV5Topic accepted the null character (was kf_topic_nul)', 'corpus/C06/fixed.sx (fx_topic_nul, fx_topic_nul_share)')
+fixed('C06', 'e25d33d', 'codec: every Unpack allocated the declared Remaining Length before any of those bytes had arrived (was kf_alloc_upfront)', 'corpus/C06/fixed.sx (fx_alloc_upfront, fx_alloc_upfront_max)')
 C06 = {
-    'kf_alloc_upfront': 'Unpack allocates the declared Remaining Length before reading (5 bytes of input make the broker allocate up to 256 MiB)',
-    'kf_varint_noncanonical': 'non-minimal Remaining Length / Property Length / Subscription Identifier encodings are accepted; TotalBytes then differs from the bytes read (c08000)',
-    'kf_prop_len_overrun': 'a Property Length larger than the bytes left is accepted (bytes.Buffer.Next clamps)',
-    'kf_proplen_omitted': 'a v5 PUBLISH/SUBSCRIBE/CONNACK... whose body ends before its mandatory Property Length is read as "no properties" (the spec allows the omission only for acks and DISCONNECT)',
-    'kf_trailing': 'bytes left over inside the Remaining Length are ignored (4:4003000100, v3 DISCONNECT/UNSUBACK, v5 after properties, CONNECT)',
-    'kf_ack_flags': 'fixed-header flags of PUBACK/PUBREC/PUBREL/PUBCOMP are not checked (4:4f020001)',
-    'kf_auth_v3': 'AUTH accepted on a 3.1/3.1.1 connection (4:f000)',
-    'kf_v3_password_without_username': '3.1.1 CONNECT with password flag but no user name flag accepted',
-    'kf_connect_props_will': 'CONNECT properties accept will/publish properties (Will Delay Interval, Payload Format, ...)',
-    'kf_retain_handling_3': 'SUBSCRIBE Retain Handling 3 accepted',
-    'kf_nolocal_shared': 'No Local on a shared subscription accepted',
-    'kf_pid_zero': 'packet identifier 0 accepted (PUBLISH QoS>0, SUBSCRIBE, UNSUBSCRIBE)',
-    'kf_name_empty': 'ValidTopicName accepts the empty string: an empty Response Topic property is accepted in PUBLISH / will properties (5:300700016103080000); PUBLISH itself now refuses an empty name',
-    'kf_unsub_share_syntax': 'v5 UNSUBSCRIBE checks filters with ValidTopicFilter, so "$share//a" is accepted',
-    'kf_topic_nul': 'ValidTopicName/ValidTopicFilter called directly accept U+0000',
+    'kf_auth_v3': 'AUTH accepted on a 3.1/3.1.1 connection (4:f000); pinned by pkg/packets/auth_test.go TestReadWriteAuthPacket, which reads an AUTH packet through a default (3.1.1) Reader',
+    'kf_pubrel_v3': 'a 3.1.1 PUBREL longer than 2 bytes is parsed in the MQTT 5 form (4:6203000100): Pubrel carries no protocol version; pinned by pubrel_test.go TestReadWritePubrelPacket',
 }
 for k, w in C06.items():
     openf('C06', k, 'codec: ' + w, 'corpus/C06/kf.sx')
